@@ -493,6 +493,19 @@ const PASE_SESSION_EST_TIMEOUT_SECS: Duration = Duration::from_secs(60);
 /// The info string for SPAKE2 session key derivation
 pub(crate) const SPAKE2_SESSION_KEYS_INFO: &[u8] = b"SessionKeys";
 
+/// Verification hooks: read-only view of the PASE state (for the runtime monitors
+/// under /verif).
+#[cfg(feature = "verif")]
+impl Pase {
+    /// `(failed PAKE attempts of the open window if any, a PASE establishment is in progress)`
+    pub fn verif_state(&self) -> (Option<u8>, bool) {
+        (
+            self.comm_window.as_opt_ref().map(|w| w.pake_failures),
+            self.session_timeout.is_some(),
+        )
+    }
+}
+
 /// The PASE session establishment timeout tracker
 pub(crate) struct SessionEstTimeout {
     /// The session expiry instant
